@@ -144,6 +144,123 @@ pub fn decode_prefix(input: &[u8]) -> Result<Decoded, String> {
     })
 }
 
+/// Incremental version of `decode_prefix`: frames are fed as they are delivered.
+pub struct GzStream {
+    head: Vec<u8>,
+    header_done: bool,
+    st: Box<InflateState>,
+    pub plain: Vec<u8>,
+    pub stream_end: bool,
+    pub after_deflate: Vec<u8>,
+    pub error: Option<String>,
+    out: Vec<u8>,
+}
+
+impl Default for GzStream {
+    fn default() -> Self {
+        GzStream::new()
+    }
+}
+
+impl GzStream {
+    pub fn new() -> GzStream {
+        GzStream {
+            head: Vec::new(),
+            header_done: false,
+            st: InflateState::new_boxed(DataFormat::Raw),
+            plain: Vec::new(),
+            stream_end: false,
+            after_deflate: Vec::new(),
+            error: None,
+            out: vec![0u8; 64 * 1024],
+        }
+    }
+
+    pub fn feed(&mut self, input: &[u8]) {
+        if self.error.is_some() {
+            return;
+        }
+        if self.stream_end {
+            self.after_deflate.extend_from_slice(input);
+            return;
+        }
+        if !self.header_done {
+            self.head.extend_from_slice(input);
+            match parse_header(&self.head) {
+                HeaderParse::Bad(m) => self.error = Some(format!("gzip header: {m}")),
+                HeaderParse::NeedMore => {}
+                HeaderParse::Done(p) => {
+                    self.header_done = true;
+                    let held = self.head.split_off(p);
+                    self.inflate_more(&held);
+                }
+            }
+            return;
+        }
+        self.inflate_more(input);
+    }
+
+    fn inflate_more(&mut self, input: &[u8]) {
+        let mut pos = 0;
+        loop {
+            let r = inflate(&mut self.st, &input[pos..], &mut self.out, MZFlush::None);
+            pos += r.bytes_consumed;
+            self.plain.extend_from_slice(&self.out[..r.bytes_written]);
+            match r.status {
+                Ok(MZStatus::StreamEnd) => {
+                    self.stream_end = true;
+                    self.after_deflate.extend_from_slice(&input[pos..]);
+                    return;
+                }
+                Ok(MZStatus::Ok) => {
+                    if r.bytes_consumed == 0 && r.bytes_written == 0 {
+                        return;
+                    }
+                }
+                Ok(MZStatus::NeedDict) => {
+                    self.error = Some("deflate: needs dictionary".into());
+                    return;
+                }
+                Err(miniz_oxide::MZError::Buf) => return,
+                Err(e) => {
+                    self.error = Some(format!("deflate: {e:?}"));
+                    return;
+                }
+            }
+        }
+    }
+
+    /// After the body ended: exactly one member of `want`?
+    pub fn verify_complete(&self, want: &[u8]) -> Result<(), String> {
+        if let Some(e) = &self.error {
+            return Err(e.clone());
+        }
+        if !self.stream_end {
+            return Err(format!("deflate stream has no final block ({} of {} plain bytes decodable)", self.plain.len(), want.len()));
+        }
+        if self.plain != want {
+            let k = self.plain.iter().zip(want).position(|(a, b)| a != b).unwrap_or(self.plain.len().min(want.len()));
+            return Err(format!("decompressed {} bytes, written {} bytes, first difference at {k}", self.plain.len(), want.len()));
+        }
+        let t = &self.after_deflate;
+        if t.len() < 8 {
+            return Err(format!("trailer has {} bytes, need 8", t.len()));
+        }
+        if t.len() > 8 {
+            return Err(format!("{} bytes after the gzip trailer", t.len() - 8));
+        }
+        let crc = u32::from_le_bytes([t[0], t[1], t[2], t[3]]);
+        let isize_ = u32::from_le_bytes([t[4], t[5], t[6], t[7]]);
+        if crc != crc32(want) {
+            return Err(format!("CRC-32 {crc:#010x}, expected {:#010x}", crc32(want)));
+        }
+        if isize_ != want.len() as u32 {
+            return Err(format!("ISIZE {isize_}, expected {}", want.len() as u32));
+        }
+        Ok(())
+    }
+}
+
 /// Verifies that `input` is exactly one well-formed gzip member whose content is `want`.
 pub fn verify_member(input: &[u8], want: &[u8]) -> Result<(), String> {
     let d = decode_prefix(input)?;
